@@ -1,6 +1,7 @@
 package main
 
 import (
+	"math/big"
 	"bytes"
 	"fmt"
 	"math"
@@ -166,7 +167,30 @@ func runC22(r *Run) {
 		case 0, 1:
 			// single values: integers in every form, floats, arrays and strings around the short-form limit
 			var evs []Event
-			switch rng.Intn(5) {
+			switch rng.Intn(6) {
+			case 5:
+				// a big float whose precision exceeds a double's but whose value is exactly a double: one value,
+				// one encoding - the bytes must be those of the same value sent as a float (narrowest width
+				// included; seeded change C22B3 sent it as a decimal whenever Prec() > 53)
+				x := math.Float64frombits(g.floatBits())
+				if math.IsNaN(x) || math.IsInf(x, 0) || x == 0 {
+					x = []float64{1.5, -0.25, 3, 1 << 20, 1e-3}[rng.Intn(5)]
+				}
+				bf := new(big.Float).SetPrec(uint([]int{53, 64, 100, 128}[rng.Intn(4)])).SetFloat64(x)
+				eb, ef := Event{K: "bf", BF: bf}, Event{K: "fl", F: x}
+				text := eb.Text()
+				r.out.Case(text, true)
+				r.out.Count("single:bf-exact-double")
+				db, err1 := encodeOne(eb, cfg)
+				df, err2 := encodeOne(ef, cfg)
+				if err1 != nil || err2 != nil {
+					r.out.Finding("C22", "encode-error", fmt.Sprintf("encoder fails on a single value: %v %v", err1, err2), text)
+					return
+				}
+				if !bytes.Equal(db, df) {
+					r.out.Finding("C22", "bigfloat-exact-double", fmt.Sprintf("a big float of precision %d holding the double %v is written as %s, the double itself as %s", bf.Prec(), x, hx(db), hx(df)), text)
+				}
+				return
 			case 0, 1:
 				g.integer()
 				evs = g.out
